@@ -983,7 +983,7 @@ func (m *Machine) rangeIter(x value, t types.Type) iterator {
 	case symString:
 		// ranging decodes UTF-8; only ASCII-constrained symbolic strings are handled: treat bytes
 		// as concrete requirement
-		panic(m.unsupported("range over symbolic string"))
+		return &symStringIter{s: x}
 	case *mapV:
 		if x == nil {
 			return &mapIter{}
